@@ -65,7 +65,8 @@ theorem resolved_inside_namespace (classes : Classes) (names : List Str) (ns : O
     (∃ found, Names.findFull name names false = .ok found ∧ found ∈ names ∧ Names.nameMatch false name found = true ∧
         acc' = set (if byName then found else name) (.task (if byName then found else name)) acc ∧
         (if byName then found else name) ∈ names)
-    ∨ (∃ d, i.default = some d ∧ acc' = set name (.dflt d) acc ∧ ∃ e, Names.findFull name names false = .error e) := by
+    ∨ (∃ d, i.default = some d ∧ acc' = set name (.dflt d) acc ∧
+        ((∃ e, Names.findFull name names false = .error e) ∨ (byName = false ∧ name ∉ names))) := by
   simp only [resolveOne, hl] at h
   split at h
   · cases h
@@ -78,7 +79,19 @@ theorem resolved_inside_namespace (classes : Classes) (names : List Str) (ns : O
         have := C10.resolves_only_when_less_nested name found names false hf
         exact Or.inl ⟨found, rfl, this.1, this.2.1, rfl, by simpa using hc⟩
       · simp only [hc] at h
-        cases h
+        -- (repair F18) a by-class reference that found only a homonym of another group: absent — the default, if there is one
+        cases hb : byName with
+        | true => simp [hb] at h
+        | false =>
+          simp only [hb] at h hc
+          cases hd : i.default with
+          | none => simp [hd] at h
+          | some d =>
+            simp only [hd] at h
+            simp only [Bool.false_eq_true, if_false] at h
+            cases h
+            refine Or.inr ⟨d, rfl, rfl, Or.inr ⟨rfl, ?_⟩⟩
+            intro hm; exact hc (by simpa using hm)
     | error e =>
       simp only [hf] at h
       cases hd : i.default with
@@ -86,7 +99,7 @@ theorem resolved_inside_namespace (classes : Classes) (names : List Str) (ns : O
       | some d =>
         simp only [hd] at h
         cases h
-        exact Or.inr ⟨d, rfl, rfl, e, rfl⟩
+        exact Or.inr ⟨d, rfl, rfl, Or.inl ⟨e, rfl⟩⟩
 
 /-- a required input that does not resolve makes construction fail -/
 theorem missing_required_input_is_error (classes : Classes) (names : List Str) (ns : Option Str)
@@ -148,5 +161,25 @@ theorem cycle_needs_fuel (H : Str → Str) (pr : Char → Bool) (t1s : List (Tas
 theorem dependent_is_closure (U : Store.Universe) (S nodes : List Nat) (hord : Store.DepOrder U nodes) (hnd : nodes.Nodup) (x : Nat) :
     x ∈ Store.descendants U S nodes [] ↔ Store.Reach U nodes S x :=
   C07.force_marks_exactly U S nodes hord hnd x
+
+/-- **an input declared by class is that class** (repair F18): when no task of the chain has the class's own name in the declaring task's
+namespace, the reference is absent — whatever other task the short name might fit: the default for an optional input, an error for a
+required one -/
+theorem byclass_homonym_is_absent (classes : Classes) (names : List Str) (ns : Option Str)
+    (acc : List (Str × InVal)) (i : InputDecl) (name : Str)
+    (hl : lookupName classes ns i = .ok (name, false)) (hnew : acc.any (fun kv => kv.1 == name) = false)
+    (habs : name ∉ names) :
+    resolveOne classes names ns acc i =
+      match i.default with
+      | some d => .ok (set name (.dflt d) acc)
+      | none => .error .missingInput := by
+  have hc : names.contains name = false := by
+    cases h : names.contains name with
+    | false => rfl
+    | true => exact absurd (List.contains_iff_mem.mp h) habs
+  simp only [resolveOne, hl, hnew]
+  cases hf : Names.findFull name names false with
+  | ok found => simp only [hc, Bool.false_eq_true, if_false]; rfl
+  | error e => simp only []; rfl
 
 end TCV.C08
